@@ -131,6 +131,7 @@ def run_launch(params, order):
                 return dict(viol=[('no-process-spawned', 'x', '%r' % (rec.summary(),))], obs=('nospawn',), log=log)
             pt = w.reactor.processes[0]
             pp = pt.proto
+            early = DRec(pp.when_connected())
             datadir = user_dir
             for i, a in enumerate(pt.args):
                 if a == 'DataDirectory':
@@ -249,6 +250,15 @@ def run_launch(params, order):
                 sim.hold_prefixes = []
                 sim.pump()
             n = len(rec.fires)
+            if early.fires:
+                # somebody who asks the process protocol only now is told the same thing as those who asked at the start
+                late = DRec(pp.when_connected())
+                if not late.fires or late.kind != early.kind:
+                    viol.append(('late-when_connected-disagrees', 'early-%s/late-%s' % (early.kind, late.kind if late.fires else 'pending'),
+                                 'after %r when_connected() requested at the start gave %r, requested afterwards %r'
+                                 % (log, early.summary()[:2], late.summary()[:2])))
+            if len(early.fires) > 1:
+                viol.append(('when_connected-fired-%d-times' % len(early.fires), 'x', '%r' % (log,)))
             if n > 1:
                 viol.append(('launch-fired-%d-times' % n, 'x', '%r' % (log,)))
             if n == 1 and rec.kind == 'ok':
